@@ -199,7 +199,11 @@ type Stream struct {
 	// Redirect: stdin is a regular file (shell "<"), so Stat reports its size;
 	// otherwise it is a pipe.
 	Redirect bool
-	pos      int
+	// Skip: bytes of a redirected stdin that the parent had consumed before the
+	// process started (`{ read hdr; jd a; } < file`): descriptor 0 continues
+	// behind them, while opening /dev/stdin anew starts at byte 0 of the file.
+	Skip int
+	pos  int
 	reads    int
 	dead     bool // early EOF fired
 	broken   bool // EIO fired: the device stays failed
@@ -263,7 +267,7 @@ type Proc struct {
 }
 
 // Reset rewinds the stream to its beginning.
-func (s *Stream) Reset() { s.pos, s.reads, s.dead, s.broken, s.zeros = 0, 0, false, false, 0 }
+func (s *Stream) Reset() { s.pos, s.reads, s.dead, s.broken, s.zeros = s.Skip, 0, false, false, 0 }
 
 // Cur is the running process. There is exactly one at a time.
 var Cur *Proc
@@ -366,6 +370,13 @@ func Run(p *Proc, flagSet string, mainFn func()) {
 	if p.Env == nil {
 		p.Env = map[string]string{}
 	}
+	if p.Stdin.pos < p.Stdin.Skip && p.Stdin.Skip <= len(p.Stdin.Data) {
+		p.Stdin.pos = p.Stdin.Skip
+	}
+	if p.Stdin.Redirect {
+		// the file stdin was redirected from can be opened once more by name
+		p.FS.Files[DevStdin] = p.Stdin.Data
+	}
 	Cur = p
 	for _, f := range argsSetters {
 		f(append([]string(nil), p.Argv...))
@@ -387,6 +398,7 @@ func (p *Proc) Finish(r any, stack string) {
 	}
 	p.finished = true
 	Cur = nil
+	delete(p.FS.Files, DevStdin)
 	if p.gone != nil {
 		// however the program's own deferred code ended (it may have
 		// recovered the end and returned, or panicked on its own), the
@@ -482,9 +494,28 @@ func Exit(code int) {
 	p.leave()
 }
 
+// DevStdin names the standard input of the process. When stdin is a regular
+// file it is that file (opened anew: from its first byte); when stdin is a
+// pipe, reading the name consumes the pipe.
+const DevStdin = "/dev/stdin"
+
 // ReadFile implements os.ReadFile / ioutil.ReadFile: one step.
 func ReadFile(name string) ([]byte, error) {
 	p := Cur
+	if name == DevStdin && !p.Stdin.Redirect {
+		var all []byte
+		buf := make([]byte, 512)
+		for {
+			n, err := p.stdinRead(buf)
+			all = append(all, buf[:n]...)
+			if err == io.EOF {
+				return all, nil
+			}
+			if err != nil {
+				return all, err
+			}
+		}
+	}
 	rec, f := p.step(SReadFile, name)
 	name = p.FS.Resolve(name)
 	if f != nil {
@@ -554,6 +585,10 @@ const (
 func OpenFile(name string, flag int) (*Handle, error) {
 	p := Cur
 	name = p.FS.Resolve(name)
+	if name == DevStdin && !p.Stdin.Redirect && flag&(oWRONLY|oRDWR) == 0 {
+		p.step(SOpenRead, name)
+		return HStdin, nil
+	}
 	if flag&(oWRONLY|oRDWR) == 0 {
 		rec, f := p.step(SOpenRead, name)
 		if f != nil {
@@ -767,6 +802,9 @@ func Stat(name string) (Info, error) {
 	p := Cur
 	p.Steps = append(p.Steps, StepRec{N: len(p.Steps), Kind: "stat", Arg: name})
 	name = p.FS.Resolve(name)
+	if name == DevStdin && !p.Stdin.Redirect {
+		return Info{Name: name, Pipe: true, Clock: p.Clock}, nil
+	}
 	if p.FS.Dirs[name] {
 		return Info{Name: name, Dir: true, Clock: p.Clock}, nil
 	}
@@ -799,6 +837,41 @@ func (h *Handle) Stat() (Info, error) {
 		return Info{Name: h.Name, Pipe: true, Clock: p.Clock}, nil
 	}
 	return Info{Name: h.Name, Size: int64(len(p.FS.Files[h.Name])), Clock: p.Clock}, nil
+}
+
+// Seek implements (*os.File).Seek for a regular file open for reading; pipes
+// and inputs of unknown size cannot seek.
+func (h *Handle) Seek(offset int64, whence int) (int64, error) {
+	p := Cur
+	p.Steps = append(p.Steps, StepRec{N: len(p.Steps), Kind: "seek", Arg: h.Name})
+	if h.std >= 0 && !(h.std == 0 && p.Stdin.Redirect) || p.FS.Fifos[h.Name] || p.FS.SizeUnknown[h.Name] {
+		return 0, pathErr("seek", h.Name, syscall.ESPIPE)
+	}
+	if h.std == 0 {
+		s := p.Stdin
+		base := map[int]int{0: 0, 1: s.pos, 2: len(s.Data)}[whence]
+		if np := base + int(offset); np >= 0 {
+			s.pos = np
+			return int64(np), nil
+		}
+		return 0, pathErr("seek", h.Name, syscall.EINVAL)
+	}
+	size := len(p.FS.Files[h.Name])
+	cur := h.rpos
+	if h.write {
+		cur = h.wpos
+	}
+	base := map[int]int{0: 0, 1: cur, 2: size}[whence]
+	np := base + int(offset)
+	if np < 0 {
+		return 0, pathErr("seek", h.Name, syscall.EINVAL)
+	}
+	if h.write {
+		h.wpos = np
+	} else {
+		h.rpos = np
+	}
+	return int64(np), nil
 }
 
 // Sync implements (*os.File).Sync: pipes, terminals and named pipes have
